@@ -181,7 +181,7 @@ func buildStreamFieldMappingConverter[I any]() func(input streamReader) streamRe
 
 		return packStreamReader(schema.StreamReaderWithConvert(s, func(v map[string]any) (I, error) {
 			t, err := convertTo(v, generic.TypeOf[I]())
-			if err != nil {
+			if err != nil || t == nil { // t == nil: I is an interface type and nothing was mapped
 				var i I
 				return i, err
 			}
